@@ -131,6 +131,8 @@ def K():
 
         def new_circuit(self, goal_hops, ctype):
             c = tunnel.Circuit(self.next_id, goal_hops, ctype)
+            # like send_initial_create: the first hop is known but unverified (Circuit.hop falls back to it)
+            c.unverified_hop = tunnel.Hop(hop_peers[1 + self.next_id % 9])
             self.circuits[self.next_id] = c
             self.next_id += 1
             return c
@@ -873,6 +875,237 @@ def overlay_tier(ctx: Ctx, n_scen: int, use_model: bool):
 
 
 # ---------------------------------------------------------------------------------------------------------------------
+# circuit lifecycle through the REAL TunnelCommunity (default settings, virtual clock)
+# ---------------------------------------------------------------------------------------------------------------------
+TICKS = [0.0, 0.5, 2.5, 4.9, 5.0, 5.1, 21.0]
+
+
+class Life:
+    """one scenario: real TunnelEndpoint + fully constructed TunnelCommunity (LifeTC) under tools/vclock.py.
+    `rmreq` requests a removal through remove_circuit / on_destroy, `docirc` through do_circuits -> do_remove,
+    `tick` lets virtual time pass.  The harness keeps its own schedule: a removal requested at t closes the circuit at
+    once and pops its entry at t + settings.remove_tunnel_delay; that schedule drives the model (`rmreq`, `rmdone`)
+    and the oracle (`Real.torn`), never the circuit's own `_closing` flag."""
+
+    def __init__(self, ctx, loop, lines, expect, record):
+        from ipv8.messaging.anonymization.community import TunnelSettings
+        from ipv8.messaging.anonymization.payload import DestroyPayload
+        k = K()
+        self.ctx, self.loop, self.lines, self.expect, self.record = ctx, loop, lines, expect, record
+        self.DestroyPayload = DestroyPayload
+        self.tc_log = []
+        tc_raw = k.RecEndpoint(self.tc_log)     # the tunnel community's own (plain) endpoint: destroys, creates, …
+
+        def make_tc(log):
+            tc = k.LifeTC(log, TunnelSettings(my_peer=k.my_peer, endpoint=tc_raw, network=k.Network()))
+            tc.cancel_pending_task("do_circuits")     # run explicitly (op `docirc`), not every 5 s behind our back
+            tc.cancel_pending_task("do_ping")
+            return tc
+        self.real = Real(None, make_tc)
+        self.delay = self.real.tc.settings.remove_tunnel_delay
+        self.inactive = self.real.tc.settings.max_time_inactive
+        self.pending = []            # (due time, circuit id), in request order
+        self.created = {}            # circuit id -> virtual time of creation (= last activity: nothing comes in)
+
+    def emit(self, op, line, reply):
+        self.record.append(op)
+        self.lines.append(line)
+        self.expect.append(reply)
+        self.ctx.count("op:" + op[0])
+
+    def q(self):
+        return f"- q={len(self.real.ep.send_queue)}"
+
+    def note_created(self):
+        for cid in self.real.tc.circuits:
+            self.created.setdefault(cid, self.loop.time())
+
+    async def settle(self):
+        import asyncio
+        for _ in range(3):
+            await asyncio.sleep(0)
+
+    def request(self, cid):
+        """bookkeeping + model line for one removal request"""
+        now = self.loop.time()
+        self.real.torn.setdefault(cid, now)
+        self.pending.append((now + self.delay, cid))
+
+    async def do(self, op):
+        import asyncio
+        real = self.real
+        kind = op[0]
+        if kind == "rmreq":
+            _, idx, destroy, via = op
+            c = real.circuit_at(idx)
+            if c is None or (via == "on_destroy" and not c._hops):
+                return
+            real.log.clear()
+            if via == "on_destroy":
+                # the handler body behind @lazy_wrapper (signature checking of the datagram is C01's business)
+                type(real.tc).on_destroy.__wrapped__(real.tc, c._hops[0].peer, self.DestroyPayload(c.circuit_id, 1))
+            else:
+                real.tc.remove_circuit(c.circuit_id, "harness", destroy=destroy)
+            await self.settle()          # the @task body runs up to its `await sleep(remove_tunnel_delay)`
+            self.request(c.circuit_id)
+            real.check_quiet("remove_circuit")
+            self.emit(op, f"rmreq {c.circuit_id}", self.q())
+            self.ctx.count(f"life:request via {via}" + (" +destroy" if destroy and via != "on_destroy" else ""))
+            self.emit(("dump",), "dump", real.dump())
+        elif kind == "docirc":
+            now = self.loop.time()
+            victims = [cid for cid, c in real.tc.circuits.items()
+                       if not c._closing and cid not in real.torn and len(c._hops) >= c.goal_hops
+                       and self.created.get(cid, now) < now - self.inactive]
+            real.log.clear()
+            real.tc.do_circuits()
+            await self.settle()
+            for cid in victims:
+                self.request(cid)
+            real.check_quiet("do_circuits")
+            self.record.append(op)
+            for cid in victims:
+                self.lines.append(f"rmreq {cid}")
+                self.expect.append(self.q())
+            self.ctx.count("op:docirc")
+            self.ctx.count("life:do_circuits closes %s" % ("some" if victims else "none"))
+            self.emit(("dump",), "dump", real.dump())
+        elif kind == "tick":
+            real.log.clear()
+            await asyncio.sleep(op[1])
+            await self.settle()
+            now = self.loop.time()
+            due = [(t, cid) for t, cid in self.pending if t <= now]
+            self.pending = [(t, cid) for t, cid in self.pending if t > now]
+            real.check_quiet("timer")
+            self.record.append(op)
+            for _, cid in due:
+                self.lines.append(f"rmdone {cid}")
+                self.expect.append(self.q())
+                self.ctx.count("life:entry removed after delay")
+            self.ctx.count("op:tick")
+            self.emit(("dump",), "dump", real.dump())
+        else:
+            if kind == "send":
+                now = self.loop.time()
+                window = [now - t for cid, t in real.torn.items() if cid in real.tc.circuits]
+                if window:
+                    self.ctx.count("life:send %.1fs after close requested, entry still registered" % min(window))
+            reply = real.do(op)
+            self.emit(op, line_of(op), reply)
+            classify(real, op, reply, self.ctx)
+            self.note_created()
+
+
+def life_script(rng, life: Life, ctr):
+    """a history; yields ops, aiming with the real objects' current shape"""
+    real = life.real
+    hops = rng.choice([1, 1, 2])
+    yield ("anon", PA, True)
+    yield ("settc", True, hops)
+
+    def mkready():
+        idx = len(real.tc.circuits)      # index the new circuit will have
+        yield ("newc", hops, 0)
+        for j in range(hops):
+            yield ("hop", idx, rng.randrange(1, 10), [4] if j == hops - 1 else [1])
+
+    def send():
+        ctr[0] += 1
+        return ("send", rng.randrange(0, 6), PA + ctr[0].to_bytes(3, "big"))
+
+    def pick():
+        cs = list(real.tc.circuits.values())
+        live = [i for i, c in enumerate(cs) if c.circuit_id not in real.torn]
+        return rng.choice(live) if live and rng.random() < 0.85 else (rng.randrange(len(cs)) if cs else 0)
+
+    if rng.random() < 0.5:
+        # window probe: a send at every point between 'close requested' and 'entry removed', and just after
+        yield from mkready()
+        yield send()
+        via = rng.choice(["remove_circuit", "remove_circuit", "on_destroy", "do_circuits"])
+        if via == "do_circuits":
+            yield ("tick", 21.0)
+            yield ("docirc",)
+        else:
+            yield ("rmreq", 0, rng.choice([0, 1, 2]), via)
+        for dt in rng.choice([[0.0, 1.0, 3.9, 0.1, 0.1], [2.5, 2.4, 0.1, 1.0], [4.9, 0.2], [5.0], [0.5, 0.5, 0.5, 3.5]]):
+            yield send()
+            if rng.random() < 0.3:
+                yield from mkready()
+            yield ("tick", dt)
+        yield send()
+        yield from mkready()
+        yield send()
+        return
+    for _ in range(rng.randrange(8, 45)):
+        r = rng.random()
+        if r < 0.35:
+            yield send()
+        elif r < 0.5:
+            yield from mkready()
+        elif r < 0.68:
+            yield ("rmreq", pick(), rng.choice([0, 0, 1, 2]), rng.choice(["remove_circuit", "remove_circuit", "on_destroy"]))
+        elif r < 0.86:
+            yield ("tick", rng.choice(TICKS))
+        elif r < 0.92:
+            yield ("docirc",)
+        elif r < 0.96:
+            yield ("settc", rng.random() < 0.7, hops if rng.random() < 0.8 else 3 - hops)
+        else:
+            yield (rng.choice(["close", "rm"]), pick())
+
+
+def run_life(ctx: Ctx, scripts, use_model: bool, where: str):
+    """scripts: list of callables (life) -> iterator of ops"""
+    import asyncio
+
+    import vclock
+    k = K()
+    lines, expect, histories = [], [], []
+    loop = vclock.new_loop()
+
+    async def one(i, script):
+        record = []
+        lines.append("reset -")
+        expect.append("ok")
+        start = len(lines)
+        life = Life(ctx, loop, lines, expect, record)
+        try:
+            for op in script(life):
+                await life.do(op)
+                if life.real.fail is not None:
+                    break
+        finally:
+            await life.real.tc.unload()
+        histories.append((start, record))
+        ctx.case(("l", where, ctx.seed, i, len(record)), life.real.nontrivial)
+        if life.real.fail is not None:
+            sig, what = life.real.fail
+            ctx.oracle_fail(sig, f"{what} [after {len(record)} ops, {where}]",
+                            {"kind": "life", "ops": [op_to_json(o) for o in record if o[0] != "dump"]})
+
+    async def all_of_them():
+        for i, script in enumerate(scripts):
+            await one(i, script)
+    try:
+        loop.run_until_complete(all_of_them())
+    finally:
+        vclock.uninstall()
+        loop.close()
+        asyncio.set_event_loop(k.loop)
+    if use_model:
+        compare(ctx, lines, expect, histories)
+
+
+def lifecycle_tier(ctx: Ctx, n_scen: int, use_model: bool):
+    ctr = [0]
+    rng = ctx.rng
+    run_life(ctx, [(lambda life, _r=rng: life_script(_r, life, ctr)) for _ in range(n_scen)], use_model,
+             "lifecycle scenario (real remove_circuit / on_destroy / do_circuits, default settings, virtual clock)")
+
+
+# ---------------------------------------------------------------------------------------------------------------------
 def check_consts(ctx: Ctx):
     """the generated constants agree with the live objects"""
     k = K()
@@ -899,6 +1132,7 @@ def run(ctx: Ctx):
     exhaustive_tier(ctx, "B", 12, ctx.scale(4, 5), ctx.model_ok)
     random_tier(ctx, ctx.scale(1200, 15000), ctx.model_ok)
     overlay_tier(ctx, ctx.scale(150, 2000), ctx.model_ok)
+    lifecycle_tier(ctx, ctx.scale(250, 4000), ctx.model_ok)
 
 
 def search(ctx: Ctx, reason: str):
@@ -909,10 +1143,28 @@ def search(ctx: Ctx, reason: str):
         random_tier(ctx, 3000, False)
     if not ctx.failures:
         overlay_tier(ctx, 400, False)
+    if not ctx.failures:
+        lifecycle_tier(ctx, 600, False)
 
 
 def replay(ctx: Ctx, rec: dict):
     r = rec.get("replay", rec)
+    if r.get("kind") == "life":
+        ops = [op_from_json(j) for j in r.get("ops", [])]
+        got = {}
+
+        def script(life):
+            got["life"] = life
+            return iter(ops)
+        n0 = len(ctx.failures)
+        run_life(ctx, [script], False, "replay")
+        life = got["life"]
+        for ln, rep in list(zip(life.lines, life.expect))[-10:]:
+            print(f"replay: {ln[:100]} -> {rep[:200]}")
+        print("replay: property", "FAILS: " + life.real.fail[1] if life.real.fail else "holds on this input")
+        if len(ctx.failures) == n0:
+            ctx.case(("replay",), True)
+        return
     real = Real(r.get("cap"))
     ops = [op_from_json(j) for j in r.get("ops", [])]
     out = []
